@@ -20,10 +20,11 @@ ASSUMPTIONS = ["R2 (vlib/ref/includes.py): active-file stack model written from 
                "not judged: tokens directly following an include without quoted name"]
 
 
-def body(name, dirs):
-    s = name + "1"
+def body(name, dirs, marker=None):
+    marker = marker or name
+    s = marker + "1"
     for j, d in enumerate(dirs):
-        s += "\ninclude " + ('"%s"' % d if d else "") + " " + name + str(j + 2)
+        s += "\ninclude " + ('"%s"' % d if d else "") + " " + marker + str(j + 2)
     return s
 
 
@@ -77,12 +78,13 @@ def gen(spec):
         r = common.rng(spec["seed"], "C15rand", spec["chunk"])
         for _ in range(spec["n"]):
             n = r.randint(5, 8)
-            names = ["f%d" % i for i in range(n)]
+            style = r.choice(["f%d", "dir/sub/file_%d.theo", "a long name with spaces %d", "%d"])
+            names = [style % i for i in range(n)]
             files = {}
-            for nm in names:
+            for i, nm in enumerate(names):
                 k = r.randint(0, 4)
-                ds = [r.choice(names + [nm, "missing1", "missing2", None]) for _ in range(k)]
-                files[nm] = body(nm, ds)
+                ds = [r.choice(names + [nm, "missing1", "some/missing file.theo", None]) for _ in range(k)]
+                files[nm] = body(nm, ds, marker="k%d_" % i)
             main = r.choice(names + ["nomain"] if r.random() < 0.1 else names)
             out.append((files, main))
     return out
